@@ -34,6 +34,10 @@ ASSUMPTIONS = [
 ROWS = {2: ["0.5, 0.5", "0.2, 0.8", "1.0, 0.0", "0.25, 0.75", "0.9, 0.1", "0.7, 0.3"],
         3: ["0.2, 0.3, 0.5", "0.1, 0.1, 0.8", "0.0, 0.5, 0.5", "0.25, 0.25, 0.5", "0.6, 0.3, 0.1", "0.3, 0.3, 0.4"]}
 DOM = {2: ["yes", "no"], 3: ["lo", "mid", "hi"]}
+# per-variable labelling: B lists the same labels in another order (a shared label sits at different positions in
+# different domains); values are numbered by their position in the variable's OWN domain
+DOMV = {"A": {2: ["yes", "no"], 3: ["lo", "mid", "hi"]}, "B": {2: ["no", "yes"], 3: ["hi", "lo", "mid"]},
+        "C": {2: ["yes", "no"], 3: ["mid", "hi", "lo"]}}
 STRUCTS = {
     "single": {"A": []},
     "chain2": {"A": [], "B": ["A"]},
@@ -70,7 +74,7 @@ def build_network(struct, sizes, offset=0):
 def render_bif(net, notations, names, sizes, break_kind=None):
     out = ["network test {\n}"]
     for v in net:
-        out.append("variable %s {\n  type discrete [ %d ] { %s };\n}" % (names[v], sizes[v], ", ".join(DOM[sizes[v]])))
+        out.append("variable %s {\n  type discrete [ %d ] { %s };\n}" % (names[v], sizes[v], ", ".join(DOMV[v][sizes[v]])))
     for vi, (v, info) in enumerate(net.items()):
         ps = info["parents"]
         head = names[v] + (" | " + ", ".join(names[p] for p in ps) if ps else "")
@@ -99,7 +103,7 @@ def render_bif(net, notations, names, sizes, break_kind=None):
         def entry(c, txt):
             if not ps:
                 return "  table %s;" % txt
-            return "  (%s) %s;" % (", ".join(DOM[sizes[p]][k] for p, k in zip(ps, c)), txt)
+            return "  (%s) %s;" % (", ".join(DOMV[p][sizes[p]][k] for p, k in zip(ps, c)), txt)
 
         if not ps or nota == "table":
             body.append(table_line(rowtxt))
@@ -210,7 +214,7 @@ def run_case(case):
         for v, info in net.items():
             var = network.variables[names[v]]
             for comb, row in info["rows"].items():
-                cond = tuple(DOM[sizes[p]][k] for p, k in zip(info["parents"], comb))
+                cond = tuple(DOMV[p][sizes[p]][k] for p, k in zip(info["parents"], comb))
                 got = var.cpt.get(cond)
                 want = tuple(float(x) for x in row.split(","))
                 stats["evaluations"] += 1
@@ -278,7 +282,7 @@ def run_queries(path, net, sizes, names, vs, law, stats, res):
         if pe == 0 or done >= budget or tainted():
             continue
         done += 1
-        evtxt = ", ".join("%s = %s" % (names[v], DOM[sizes[v]][k]) for v, k in ev)
+        evtxt = ", ".join("%s = %s" % (names[v], DOMV[v][sizes[v]][k]) for v, k in ev)
         # sampling time
         args = polar.cli_defaults()
         args.sample_time_until = evtxt
